@@ -118,3 +118,76 @@ fn c09_q_oneshot_drops() {
   assert!(drops(0) == 1, "C09: oneshot value not dropped exactly once");
   kani::cover!(sc == 1, "value left in the slot at teardown");
 }
+
+// ---------------------------------------------------------------- races (oneshot routed through the
+// verification primitives by hook H1o: every atomic / lock operation is a scheduling point)
+use fibre::__verif as sched;
+use std::sync::atomic::{AtomicPtr, Ordering::Relaxed};
+
+static RXT: AtomicPtr<Option<oneshot::Receiver<Tag>>> = AtomicPtr::new(std::ptr::null_mut());
+static TXT: AtomicPtr<Option<oneshot::Sender<Tag>>> = AtomicPtr::new(std::ptr::null_mut());
+fn a_drop_rx(_a: sched::ActorId) {
+  let r = unsafe { &mut *RXT.load(Relaxed) };
+  *r = None;
+}
+fn a_close_rx(_a: sched::ActorId) {
+  let r = unsafe { &mut *RXT.load(Relaxed) };
+  let _ = r.as_ref().unwrap().close();
+}
+fn a_send_clone(_a: sched::ActorId) {
+  let t = unsafe { &mut *TXT.load(Relaxed) };
+  let r = t.take().unwrap().send(Tag(1));
+  drop(r);
+}
+
+/// C09/C04 (oneshot race): the receiver is dropped / closed at any synchronisation point of send():
+/// the value is dropped exactly once whether the send reports Ok or hands it back.
+#[kani::proof]
+#[kani::unwind(4)]
+fn c09_q_oneshot_send_vs_receiver_drop() {
+  let (tx, rx) = oneshot::oneshot::<Tag>();
+  let mut rxs = Some(rx);
+  RXT.store(&mut rxs as *mut _, Relaxed);
+  let close: bool = kani::any();
+  sched::install(if close { a_close_rx } else { a_drop_rx }, 1, 1);
+  let r = tx.send(Tag(0));
+  sched::run_pending();
+  sched::uninstall();
+  let ok = r.is_ok();
+  drop(r); // an Err hands the value back: dropped here
+  if !ok {
+    assert!(drops(0) == 1, "C09: value handed back by a failed oneshot send not dropped exactly once");
+  }
+  rxs = None;
+  assert!(drops(0) == 1, "C09: oneshot value not dropped exactly once (receiver went away during send)");
+  kani::cover!(ok, "send reported success although the receiver went away");
+  kani::cover!(!ok, "send handed the value back");
+}
+
+/// C03/C01 (oneshot race): two senders racing: exactly one send succeeds, the loser gets its own value
+/// back, the receiver gets the winner's value.
+#[kani::proof]
+#[kani::unwind(4)]
+fn c03_q_oneshot_two_senders_race() {
+  let (tx, rx) = oneshot::oneshot::<Tag>();
+  let mut tx2 = Some(tx.clone());
+  TXT.store(&mut tx2 as *mut _, Relaxed);
+  sched::install(a_send_clone, 1, 1);
+  let r = tx.send(Tag(0));
+  sched::run_pending();
+  sched::uninstall();
+  let top_won = r.is_ok();
+  match r {
+    Ok(()) => {}
+    Err(TrySendError::Sent(v)) => assert!(v.0 == 0, "C01: Sent did not hand the sender's own value back"),
+    Err(_) => assert!(false, "C04: spurious Closed"),
+  }
+  let got = rx.try_recv();
+  match got {
+    Ok(v) => assert!(v.0 == if top_won { 0 } else { 1 }, "C03: the receiver did not get the winning sender's value"),
+    Err(_) => assert!(false, "C01: a successful oneshot send was not delivered"),
+  }
+  assert!(drops(0) == 1 && drops(1) == 1, "C09: a racing sender's value was not dropped exactly once");
+  kani::cover!(top_won, "first sender won");
+  kani::cover!(!top_won, "second sender won");
+}
